@@ -496,6 +496,15 @@ class Legacy(object):
                 eq = gt in ('%s == %s' % (ivar, idx), '%s == %s' % (idx, ivar)) if ivar else False
                 ne = gt in ('%s != %s' % (ivar, idx), '%s != %s' % (idx, ivar), 'not %s == %s' % (ivar, idx)) if ivar else False
                 if not (eq or ne):
+                    import re as _re
+                    if ivar and (_re.match(r'^%s (<|>|<=|>=) %s$' % (_re.escape(ivar), _re.escape(idx)), gt) or _re.match(r'^%s (<|>|<=|>=) %s$' % (_re.escape(idx), _re.escape(ivar)), gt)):
+                        # an ordering test splits the inputs into those before and those after the signed one; the
+                        # consensus rule separates the signed input from all others
+                        return 'DEFECT: input loop guarded by `%s`: it treats the inputs before the signed one differently from those after it' % gt
+                    if ivar and gt in ('%s is not %s' % (ivar, idx), '%s is not %s' % (idx, ivar), '%s is %s' % (ivar, idx), '%s is %s' % (idx, ivar)):
+                        # identity of two int objects: equal indices above the interpreter's small-integer cache (256) are
+                        # different objects, so the signed input is no longer told apart from the others
+                        return 'DEFECT: input loop guarded by `%s`: object identity is not equality for integers (indices above 256 are never identical)' % gt
                     return 'input loop guarded by `%s`' % gt
                 own = eq if pol == 'pos' else ne
                 this = 'own' if own else 'others'
